@@ -14,10 +14,9 @@ class Dispatcher(object):
         return wrap
 
     def get_for(self, fname):
-        try:
-            return self._registry_[fname]
-        except KeyError:
-            raise SyntaxError('Function not found for %s' % fname)
+        # None for an unknown name: the caller reports #NAME? (a SyntaxError raised
+        # here was swallowed by the grammar's error recovery and gave a blank result)
+        return self._registry_.get(fname)
 
     def __iter__(self):
         return iter(registry.values())
